@@ -2230,7 +2230,7 @@ class AnsiStr(str):
         cpy.casefold(inplace=True)
         return AnsiStr(cpy)
 
-    def center(self, width:int, fillchar:str=' ') -> 'AnsiStr':
+    def center(self, width:int, fillchar:str=' ', extend_formatting:bool=True) -> 'AnsiStr':
         '''
         Center justification.
         Parameters:
@@ -2239,10 +2239,10 @@ class AnsiStr(str):
         Returns: a new AnsiStr
         '''
         cpy = self._s.copy()
-        cpy.center(width, fillchar, inplace=True)
+        cpy.center(width, fillchar, inplace=True, extend_formatting=extend_formatting)
         return AnsiStr(cpy)
 
-    def ljust(self, width:int, fillchar:str=' ') -> 'AnsiStr':
+    def ljust(self, width:int, fillchar:str=' ', extend_formatting:bool=True) -> 'AnsiStr':
         '''
         Left justification.
         Parameters:
@@ -2251,10 +2251,10 @@ class AnsiStr(str):
         Returns: a new AnsiStr
         '''
         cpy = self._s.copy()
-        cpy.ljust(width, fillchar, inplace=True)
+        cpy.ljust(width, fillchar, inplace=True, extend_formatting=extend_formatting)
         return AnsiStr(cpy)
 
-    def rjust(self, width:int, fillchar:str=' ') -> 'AnsiStr':
+    def rjust(self, width:int, fillchar:str=' ', extend_formatting:bool=True) -> 'AnsiStr':
         '''
         Right justification.
         Parameters:
@@ -2263,7 +2263,7 @@ class AnsiStr(str):
         Returns: a new AnsiStr
         '''
         cpy = self._s.copy()
-        cpy.rjust(width, fillchar, inplace=True)
+        cpy.rjust(width, fillchar, inplace=True, extend_formatting=extend_formatting)
         return AnsiStr(cpy)
 
     def __eq__(self, value:'AnsiStr') -> bool:
